@@ -28,58 +28,59 @@ section memo
 variable {K A C R : Type} [DecidableEq K] [DecidableEq A]
 
 /-- `Disciplined h → every query in h returns recompute(current content)`, whatever the memo table held before
-(`s` is arbitrary: stale entries of dead graphs under recycled ids included), compared op by op with the machine
-that has no memo table. -/
+(`s` is arbitrary: stale entries of dead graphs under recycled ids included): position by position, every value the
+machine returns (from a whole query, a lookup section that hits, or a store section) is the value the machine without
+a memo table computes there, and no section raises KeyError. -/
 theorem cache_fresh (rc : C → K → A → R) (s : St K C R) (h : List (MOp K A C)) (hd : Disciplined h) :
-    (run rc s h).map Out.value = ideal rc s.live h := by
+    AgreeAll (run rc s h) (ideal rc s.live h) := by
   apply fresh_gen rc h s (fun _ => none) _ hd
-  intro g f c k r hdg
-  cases hdg
+  exact ⟨(by intro g f c k r hdg; cases hdg), (by intro g f hdg; cases hdg)⟩
+
+/-- (so that `cache_fresh` is not vacuous for whole queries) a query on a live graph always returns a value -/
+theorem query_always_answers (rc : C → K → A → R) (s : St K C R) (g : Gid) (k : K) (a : A) (c : C)
+    (hl : s.live g = some c) : ∃ r hit, (step rc s (.query g k a)).2 = .val r hit :=
+  query_answers rc s g k a c hl
 
 /-- A call all of whose queries come after a `clear` of the same id gives the same outputs (values and hit/miss) from
 any two states of the memo table. -/
 theorem call_independent_of_memo (rc : C → K → A → R) (l : Gid → Option C) (m m' : Memo K R) (call : List (MOp K A C))
     (hi : Isolated call) : run rc ⟨l, m⟩ call = run rc ⟨l, m'⟩ call := by
-  apply sim_gen rc call l m m' (fun _ => false) _ hi
-  intro g he
-  cases he
+  apply sim_gen rc call l m m' (fun _ => false) (fun _ => false) _ hi
+  exact ⟨(by intro g he; cases he), (by intro g hx; cases hx)⟩
 
 /-- If the history before a call is `Tidy`, the call's outputs in the long-lived process equal its outputs in a process
-whose memo table is empty (a fresh process that holds the same live graphs). -/
-theorem tidy_prefix_then_fresh (rc : C → K → A → R) (pre call : List (MOp K A C)) (ht : Tidy pre) :
+whose memo table is empty (a fresh process that holds the same live graphs).  (`Guarded`: store sections follow their
+lookup sections; automatic for histories of whole queries, see `tidy_prefix_then_fresh_queries`.) -/
+theorem tidy_prefix_then_fresh (rc : C → K → A → R) (pre call : List (MOp K A C)) (ht : Tidy pre) (hg : Guarded call) :
     run rc (final rc fresh pre) call = run rc ⟨(final rc (fresh : St K C R) pre).live, fun _ => none⟩ call := by
   have hlook : ∀ g k, (final rc (fresh : St K C R) pre).memo.look g k = none := by
     intro g k
     apply dirty_gen rc pre fresh [] _ g _ k
     · intro g' _ k'; rfl
     · unfold Tidy at ht; rw [ht]; exact List.not_mem_nil
-  have := sim_gen rc call (final rc (fresh : St K C R) pre).live (final rc (fresh : St K C R) pre).memo (fun _ => none)
-    (fun _ => true) (by intro g _ k; rw [hlook g k]; rfl) (isolatedFrom_true call _ (fun _ => rfl))
-  exact this
+  exact sim_gen rc call (final rc (fresh : St K C R) pre).live (final rc (fresh : St K C R) pre).memo (fun _ => none)
+    (fun _ => true) (fun _ => false) ⟨(by intro g _ k; rw [hlook g k]; rfl), (by intro g hx; cases hx)⟩ hg
+
+theorem tidy_prefix_then_fresh_queries (rc : C → K → A → R) (pre call : List (MOp K A C)) (ht : Tidy pre)
+    (hh : call.all MOp.isHigh = true) :
+    run rc (final rc fresh pre) call = run rc ⟨(final rc (fresh : St K C R) pre).live, fun _ => none⟩ call :=
+  tidy_prefix_then_fresh rc pre call ht (guarded_of_high call _ hh)
 
 /-- the whole history `pre ++ call` from a fresh process: the outputs of `call` are those of `call` run from an empty table -/
-theorem outputs_of_call_after_tidy_prefix (rc : C → K → A → R) (pre call : List (MOp K A C)) (ht : Tidy pre) :
+theorem outputs_of_call_after_tidy_prefix (rc : C → K → A → R) (pre call : List (MOp K A C)) (ht : Tidy pre)
+    (hg : Guarded call) :
     run rc (fresh : St K C R) (pre ++ call) =
       run rc fresh pre ++ run rc ⟨(final rc (fresh : St K C R) pre).live, fun _ => none⟩ call := by
-  rw [run_append, tidy_prefix_then_fresh rc pre call ht]
+  rw [run_append, tidy_prefix_then_fresh rc pre call ht hg]
 
-omit [DecidableEq A] in
-/-- a sequential query never raises KeyError: `lookup` has created the table and nothing removes it -/
-theorem sequential_no_keyerror (rc : C → K → A → R) (s : St K C R) (op : MOp K A C) : (step rc s op).2 ≠ .keyError := by
-  cases op with
-  | alloc g c => simp only [step]; split <;> simp
-  | mutate g c => simp only [step]; split <;> simp
-  | drop g => simp only [step]; split <;> simp
-  | clear g => simp only [step]; split <;> simp
-  | query g k a =>
-    cases hl : s.live g with
-    | none => rw [step_query_dead rc s g k a hl]; simp
-    | some c =>
-      cases hk : s.memo.look g k with
-      | some r => rw [step_query_hit rc s g k a c r hl hk]; simp
-      | none =>
-        obtain ⟨m2, hstep, _, _⟩ := step_query_miss rc s g k a c hl hk
-        rw [hstep]; simp
+/-- a sequential whole query never raises KeyError: `lookup` has created the table and nothing removes it -/
+theorem sequential_no_keyerror (rc : C → K → A → R) (s : St K C R) (g : Gid) (k : K) (a : A) :
+    (step rc s (.query g k a)).2 ≠ .keyError := by
+  cases hl : s.live g with
+  | none => simp [step, hl]
+  | some c =>
+    obtain ⟨r, hit, h⟩ := query_answers rc s g k a c hl
+    rw [h]; simp
 
 end memo
 
@@ -96,6 +97,7 @@ def callB : List (MOp Nat Nat Nat) := [.alloc 7 2, .query 7 0 0, .clear 7, .drop
 theorem cache_stale_counterexample :
     run rcW fresh (callA ++ callB) = [.ok, .ok, .val 1 false, .ok, .ok, .val 1 true, .ok, .ok] ∧
     ideal rcW (fun _ => none) (callA ++ callB) = [none, none, some 1, none, none, some 2, none, none] ∧
+    (run rcW fresh (callA ++ callB)).map Out.value ≠ ideal rcW (fun _ => none) (callA ++ callB) ∧
     ¬ Disciplined (callA ++ callB) := by
   decide
 
@@ -116,6 +118,22 @@ example : Disciplined callOk ∧ Isolated callOk ∧ Tidy callOk ∧
 example : run (fun _ _ a => a) (fresh : St Nat Nat Nat) [.alloc 3 1, .clear 3, .query 3 0 5, .query 3 0 6] =
       [.ok, .ok, .val 5 false, .val 5 true] ∧
     ¬ Disciplined ([.alloc 3 1, .clear 3, .query 3 0 5, .query 3 0 6] : List (MOp Nat Nat Nat)) := by decide
+
+/-- a query whose `_impl` run issues a nested query (the recursion of graph_utils.py), written with the section operations:
+lookup(outer) · lookup(inner) · store(inner) · store(outer), then a lookup that hits.  Disciplined; every value agrees. -/
+def callNested : List (MOp Nat Nat Nat) :=
+  [.alloc 3 1, .clear 3, .lookup 3 0 0, .lookup 3 1 0, .store 3 1 0, .store 3 0 0, .lookup 3 0 0, .clear 3, .drop 3]
+
+example : Disciplined callNested ∧ Isolated callNested ∧ Guarded callNested ∧ Tidy callNested ∧
+    run rcW fresh callNested = [.ok, .ok, .miss, .miss, .val 1 false, .val 1 false, .val 1 true, .ok, .ok] := by decide
+
+/-- the nested query has the key of the outer one but another argument (the key omits `vs_to_not_visit`): not Disciplined -/
+example : ¬ Disciplined ([.alloc 3 1, .clear 3, .lookup 3 0 5, .lookup 3 0 6, .store 3 0 6, .store 3 0 5] : List (MOp Nat Nat Nat)) := by
+  decide
+
+/-- a store section without its lookup section in a fresh process raises KeyError (`Guarded` excludes it) -/
+example : run rcW fresh ([.alloc 3 1, .store 3 0 0] : List (MOp Nat Nat Nat)) = [.ok, .keyError] ∧
+    ¬ Guarded ([.alloc 3 1, .store 3 0 0] : List (MOp Nat Nat Nat)) := by decide
 
 /-! ### decompilation does not alter the meaning of the caller's ops -/
 
